@@ -336,7 +336,9 @@ func buildHint(rng *rt.Rand, weight, dist int) (h [8][256]int32) {
 }
 
 func c13Hints(j *rt.Job, rng *rt.Rand, r *rt.Rec) {
-	for weight := 0; weight <= 75; weight++ {
+	reused := make([]byte, dilSigBytes) // one output buffer reused across calls, heavier hint vectors first
+	for w := 0; w <= 75; w++ {
+		weight := 75 - w
 		for dist := 0; dist < 5; dist++ {
 			h := buildHint(rng, weight, dist)
 			var z [7][256]int32
@@ -344,7 +346,12 @@ func c13Hints(j *rt.Job, rng *rt.Rand, r *rt.Rec) {
 				z[i] = randPolyIn(rng, -(1<<19 - 1), 1<<19, 0)
 			}
 			c := rng.Bytes(32)
-			sig := make([]byte, dilSigBytes)
+			// the encoder must write the complete encoding whatever the buffer held before:
+			// alternately a buffer reused from the previous (heavier) vector and one pre-filled with 0xA5
+			sig := reused
+			if dist%2 == 1 {
+				sig = bytes.Repeat([]byte{0xA5}, dilSigBytes)
+			}
 			if err := dilithium.VerifPackSig(sig, c, &z, &h); err != nil {
 				r.Violate("C13/packSig", "packSig error: "+err.Error(), jobCase(j), "", "")
 				return
@@ -505,6 +512,35 @@ func c13Canon(j *rt.Job, rng *rt.Rand, r *rt.Rec) {
 			class = "counts"
 			hs[75+rng.Intn(8)] = byte(rng.Intn(256))
 		case 6:
+			if t%16 == 6 {
+				// total weight 75 reached before the last row: the remaining counters must all be exactly 75
+				class = "weight-75-trailing-counters"
+				for i := range hs {
+					hs[i] = 0
+				}
+				full := rng.Intn(7) // row in which the 75th hint sits
+				k := 0
+				for rr := 0; rr <= full; rr++ {
+					add := (75 - k) / (full - rr + 1)
+					if rr == full {
+						add = 75 - k
+					}
+					pos := 0
+					for a := 0; a < add; a++ {
+						hs[k] = byte(pos)
+						pos += 1 + rng.Intn(2)
+						k++
+					}
+					hs[75+rr] = byte(k)
+				}
+				for rr := full + 1; rr < 8; rr++ {
+					hs[75+rr] = 75
+				}
+				if rng.Intn(4) != 0 { // usually: one trailing counter is wrong
+					hs[75+full+1+rng.Intn(7-full)] = byte(rng.Intn(256))
+				}
+				break
+			}
 			class = "random-hint-bytes"
 			copy(hs, rng.Bytes(83))
 			for i := 75; i < 83; i++ {
@@ -513,6 +549,30 @@ func c13Canon(j *rt.Job, rng *rt.Rand, r *rt.Rec) {
 		case 7:
 			class = "bitflip"
 			s = flipBit(s, hintOff*8+rng.Intn(83*8))
+			if t%16 == 7 {
+				// rows that begin at position 0 / end at position 255, listed twice
+				class = "duplicate-extreme-position"
+				for i := range hs {
+					hs[i] = 0
+				}
+				row := rng.Intn(8)
+				v := byte(0)
+				if rng.Bool() {
+					v = 255
+				}
+				k := 0
+				for rr := 0; rr < 8; rr++ {
+					if rr == row {
+						if v == 0 {
+							hs[k], hs[k+1], hs[k+2] = 0, 0, byte(1+rng.Intn(200))
+						} else {
+							hs[k], hs[k+1], hs[k+2] = byte(rng.Intn(200)), 255, 255
+						}
+						k += 3
+					}
+					hs[75+rr] = byte(k)
+				}
+			}
 		}
 		r.Eval(1)
 		acc, why, refOK := c13CanonOne(s)
